@@ -20,6 +20,13 @@ RULE = ("directed families (169 operator pairs x int/float/mixed operands, int-d
         "scalar-core programs x 4 input vectors.  A case (source, inputs) is non-trivial when the VM "
         "executed >= 3 binary opcodes and >= 1 branch and the oracle compared a value; directed operator "
         "pairs count when some input separates the two groupings.")
+TECHNIQUE = "differential runtime monitoring: real compiler+VM under a step observer vs reference interpreter on the generator's tree"
+LEVEL_TEXT = ("Every generated or enumerated scalar-core program is compiled by the real compiler, run on the real VM under the "
+              "step observer (instruction budget, def-before-use, opcode coverage) and compared, value and globals, with a "
+              "reference interpreter that evaluates the generator's own syntax tree. Directed families are complete; random "
+              "programs are sampled. Verdict: held on the executions observed.")
+LEVEL_NOTE = ("Trusted: the reference interpreter nslverif/ref/sem.py and the printer in nslverif/lang.py; cases outside the "
+              "stated numeric domain (32-bit overflow, division by zero, negative %, narrowing conversions) are dropped, not judged.")
 ASSUMPTIONS = ["RefSem (nslverif/ref/sem.py) is the source semantics as spelled out in the statement",
                "cases outside the stated numeric domain are dropped, not judged",
                "floats compared within 1e-9 relative"]
